@@ -35,6 +35,7 @@ THEOREMS = [
     "Ffcx.C12.sorted_canon",
     "Ffcx.C12.dedup_sorted_canon",
     "Ffcx.C12.dedup_sorted_canon_of_same_elems",
+    "Ffcx.C12.hash_irrelevant_of_perm_invariant",
     # canonicalised / order-oblivious sites
     "Ffcx.C12.site_invariant_coordinate_elements",
     "Ffcx.C12.site_invariant_argkeys_sum",
@@ -43,9 +44,11 @@ THEOREMS = [
     "Ffcx.C12.site_invariant_active_tables",
     "Ffcx.C12.site_invariant_singleton_unpack",
     "Ffcx.C12.site_invariant_ufl_names",
+    "Ffcx.C12.site_invariant_membership",
+    "Ffcx.C12.site_invariant_element_dimensions",
     "Ffcx.C12.site_invariant_object_names",
+    "Ffcx.C12.site_invariant_index_position",
     "Ffcx.C12.site_invariant_temp_symbols",
-    "Ffcx.C12.site_invariant_rule_id",
     # order-leaking sites: counterexample + what does hold
     "Ffcx.C12.site_fuse_inputs_counterexample",
     "Ffcx.C12.site_fuse_inputs_partial",
@@ -55,8 +58,6 @@ THEOREMS = [
     "Ffcx.C12.site_block_inputs_partial",
     "Ffcx.C12.site_table_numbering_counterexample",
     "Ffcx.C12.site_table_numbering_partial",
-    "Ffcx.C12.site_form_element_numbering_counterexample",
-    "Ffcx.C12.site_form_element_numbering_partial",
     "Ffcx.C12.site_jacobian_symbol_counterexample",
     "Ffcx.C12.site_jacobian_symbol_partial",
     "Ffcx.C12.site_geometry_tables_counterexample",
